@@ -365,75 +365,80 @@ Theorem C20_no_duplicate_delivery_with_want_filter :
 Proof. exact client_no_duplicates. Qed.
 Print Assumptions C20_no_duplicate_delivery_with_want_filter.
 
-(* ---------------- requests: split like responses (F-C20c, repaired) ---------------- *)
+(* ---------------- requests: one message, whatever its size ---------------- *)
 
-(* the messages of send_request carry, concatenated, exactly the wants that fit a message, once
-   and in order *)
-Theorem C20_request_partition :
-  forall mm cids,
-    concat (send_request_msgs mm cids) =
-    filter (fits (cid * want_type) (fun _ => 0) sw_elen req_mlen 0 mm) cids.
-Proof. exact request_partition. Qed.
-Print Assumptions C20_request_partition.
+(* send_request builds ONE message carrying all wants (C20_request_roundtrip: what the remote's
+   user is told is the request) *)
+Theorem C20_request_single_message :
+  forall mb mm cids,
+    action_msgs mb mm (ARequest cids) = [ORequest cids] /\ omsg_len (ORequest cids) = request_len cids.
+Proof. exact request_single_message. Qed.
+Print Assumptions C20_request_single_message.
 
-(* a message that carries wants is within the limit *)
-Theorem C20_request_bounds :
-  forall mm cids, Forall (fun b => b <> [] -> request_len b <= mm) (send_request_msgs mm cids).
-Proof. exact request_bounds. Qed.
-Print Assumptions C20_request_bounds.
-
-(* an empty request is still one message (an empty wantlist, two bytes), as before the fix *)
+(* an empty request is still a message: an empty wantlist, two bytes *)
 Theorem C20_request_empty_is_one_message :
-  forall mm, send_request_msgs mm [] = [[]] /\ request_len [] = 2.
-Proof. exact (fun mm => conj (request_empty mm) request_empty_len). Qed.
+  forall mb mm, action_msgs mb mm (ARequest []) = [ORequest []] /\ request_len [] = 2.
+Proof. exact (fun mb mm => conj eq_refl request_empty_len). Qed.
 Print Assumptions C20_request_empty_is_one_message.
 
-(* with the shipped limit every want (multihash of at most 64 bytes) is sent, and no message is
-   empty or too long *)
-Theorem C20_default_requests_all_sent :
+(* with the shipped limit a request of up to 32 000 wants (multihashes of at most 64 bytes) is
+   within the limit and goes out whole over a substream that takes it *)
+Theorem C20_default_request_fits :
   forall cids, Forall (fun cw => (length (c_digest (fst cw)) <= 64)%nat) cids ->
-    concat (send_request_msgs Consts.BITSWAP_MAX_MESSAGE_SIZE cids) = cids.
-Proof. exact default_requests_all_sent. Qed.
-Print Assumptions C20_default_requests_all_sent.
+    N.of_nat (length cids) <= 32000 -> request_len cids <= Consts.BITSWAP_MAX_MESSAGE_SIZE.
+Proof. exact default_request_fits. Qed.
+Print Assumptions C20_default_request_fits.
 
-Theorem C20_default_requests_nonempty :
-  forall cids, Forall (fun cw => (length (c_digest (fst cw)) <= 64)%nat) cids -> cids <> [] ->
-    Forall (fun b => b <> [] /\ request_len b <= Consts.BITSWAP_MAX_MESSAGE_SIZE)
-           (send_request_msgs Consts.BITSWAP_MAX_MESSAGE_SIZE cids).
-Proof. exact default_requests_nonempty. Qed.
-Print Assumptions C20_default_requests_nonempty.
+Theorem C20_request_written_healthy :
+  forall mb mm cids, request_len cids <= mm ->
+    write_msgs mm None (action_msgs mb mm (ARequest cids)) = ([ORequest cids], 0, None, true).
+Proof. exact request_written_healthy. Qed.
+Print Assumptions C20_request_written_healthy.
 
-(* splitting does not change what the remote's user is told: message after message, the reported
-   wants are the request *)
-Theorem C20_split_request_same_wants :
-  forall mm cids, Forall (fun cw => cid_wf (fst cw)) cids ->
-    flat_map (fun b => inbound_wants (request_entries b)) (send_request_msgs mm cids) =
-    filter (fits (cid * want_type) (fun _ => 0) sw_elen req_mlen 0 mm) cids.
-Proof. exact split_request_same_wants. Qed.
-Print Assumptions C20_split_request_same_wants.
-
-(* F-C20c, the defect repaired by the third `fix:` commit: one unsplit request (what the code
-   sent before) cannot respect any message size limit *)
+(* OBSERVATION, outside the property text (which speaks of responses): requests are not split.  For
+   every limit there is a request, each want of which would fit a message, whose one message is too
+   long ... *)
 Theorem C20_unsplit_request_insufficient :
   forall mm, 53 <= mm ->
     exists cids : list (cid * want_type),
-      Forall (fun cw => fits (cid * want_type) (fun _ => 0) sw_elen req_mlen 0 mm cw = true) cids /\
-      mm < request_len cids.
+      Forall (fun cw => req_mlen (sw_elen cw) <= mm) cids /\ mm < request_len cids.
 Proof. exact unsplit_request_insufficient. Qed.
 Print Assumptions C20_unsplit_request_insufficient.
 
-(* no message of any command is refused by the codec's size check *)
+(* ... the codec refuses it: send_request writes nothing and fails, on any substream ... *)
+Theorem C20_oversized_request_refused :
+  forall mb mm cids c, mm < request_len cids ->
+    write_msgs mm c (action_msgs mb mm (ARequest cids)) = ([], 0, c, false).
+Proof. exact oversized_request_refused. Qed.
+Print Assumptions C20_oversized_request_refused.
+
+(* ... and the loop then does this: an established substream is dropped and a new one requested,
+   the commands given meanwhile queue up behind the request, on the new substream the request is
+   refused again and the substream is dropped together with the whole queue — nothing is written,
+   nothing is reported, the peer's state is as before without the substream *)
+Theorem C20_oversized_request_drops_queue :
+  forall (D : Type) (digest : N -> D -> option (list N)) mb mm s c2 cids acts, mm < request_len cids ->
+    ps_pend s = [] -> ps_opening s = false -> ps_conn s = 1 ->
+    run_peer D digest mb mm s (PSend (ARequest cids) :: map PSend acts ++ [POutOpen c2]) =
+    (set_out s None, [], []).
+Proof. exact oversized_request_drops_queue. Qed.
+Print Assumptions C20_oversized_request_drops_queue.
+
+(* a queue flushed to a fresh substream stops at an oversized request: what stands before it is
+   written, the request and everything behind it is not *)
+Theorem C20_flush_stops_at_oversized_request :
+  forall mb mm c pre cids rest, Forall (action_ok mm) pre -> mm < request_len cids ->
+    write_actions mb mm None (pre ++ ARequest cids :: rest) =
+    (flat_map (action_msgs mb mm) pre, 0, None, false) /\
+    (pre = [] -> write_actions mb mm c (ARequest cids :: rest) = ([], 0, c, false)).
+Proof. exact write_actions_oversized. Qed.
+Print Assumptions C20_flush_stops_at_oversized_request.
+
+(* the commands the codec never refuses: every response (batching), a request within the limit *)
 Theorem C20_action_within_codec_limit :
-  forall mb mm a, 2 <= mm -> Forall (fun m => omsg_len m <= mm) (action_msgs mb mm a).
+  forall mb mm a, action_ok mm a -> Forall (fun m => omsg_len m <= mm) (action_msgs mb mm a).
 Proof. exact action_msgs_within_limit. Qed.
 Print Assumptions C20_action_within_codec_limit.
-
-Theorem C20_request_lossless :
-  forall mb mm cids,
-    flat_map omsg_wants (action_msgs mb mm (ARequest cids)) =
-    filter (fits (cid * want_type) (fun _ => 0) sw_elen req_mlen 0 mm) cids.
-Proof. exact request_lossless. Qed.
-Print Assumptions C20_request_lossless.
 
 (* ---------------- bytes on the wire ---------------- *)
 
@@ -460,7 +465,8 @@ Print Assumptions C20_blocks_bytes_length.
 
 (* so the bounds hold for the bytes: every blocks message of send_response is a byte string of at
    most max_message_size bytes holding at most max_batch_size bytes of data, none is empty, and
-   together they carry exactly the blocks that fit, once and in order; likewise presences, requests *)
+   together they carry exactly the blocks that fit, once and in order; likewise presences; a request
+   is one message that reaches the wire only when its bytes are within the limit *)
 Theorem C20_wire_blocks_bounded :
   forall mb mm l, mm < 2 ^ 64 ->
     Forall (fun batch => batch <> [] /\ sum (map cb_dlen batch) <= mb /\ Protobuf.blen (blocks_bytes batch) <= mm)
@@ -475,11 +481,12 @@ Theorem C20_wire_presences_bounded :
 Proof. exact wire_presences_bounded. Qed.
 Print Assumptions C20_wire_presences_bounded.
 
-Theorem C20_wire_requests_bounded :
-  forall mm cids, 2 <= mm -> mm < 2 ^ 64 ->
-    Forall (fun batch => Protobuf.blen (request_bytes batch) <= mm) (send_request_msgs mm cids).
-Proof. exact wire_requests_bounded. Qed.
-Print Assumptions C20_wire_requests_bounded.
+Theorem C20_wire_request_written_bounded :
+  forall mm c cids done part c' ok, mm < 2 ^ 64 ->
+    write_msgs mm c [ORequest cids] = (done, part, c', ok) ->
+    done = [] \/ (done = [ORequest cids] /\ Protobuf.blen (request_bytes cids) <= mm).
+Proof. exact wire_request_written_bounded. Qed.
+Print Assumptions C20_wire_request_written_bounded.
 
 (* what send_request writes parses back (prost's generic field parser) to the fields it was built from *)
 Theorem C20_request_bytes_parse :
@@ -499,7 +506,8 @@ Theorem C20_events_only_from_frames :
 Proof. exact events_only_from_frames. Qed.
 Print Assumptions C20_events_only_from_frames.
 
-(* whatever the loop writes, in any state, passes the codec's size check *)
+(* whatever the loop writes, in any state, is within the limit: responses by batching, a request
+   because the codec refuses a longer one before anything is written *)
 Theorem C20_written_within_limit :
   forall (D : Type) (digest : N -> D -> option (list N)) mb mm s e s' evs done part,
     peer_step D digest mb mm s e = (s', (evs, (done, part))) ->
@@ -558,9 +566,10 @@ Proof. exact send_to_gone_peer_dropped. Qed.
 Print Assumptions C20_send_to_gone_peer_dropped.
 
 (* ... to a peer that can be dialled: parked; once the connection is reported and the substream
-   opens, every parked command is written, completely and in order *)
+   opens, every parked command (none of them an oversized request) is written, completely and in
+   order *)
 Theorem C20_send_to_dialable_peer_parked :
-  forall (D : Type) (digest : N -> D -> option (list N)) mb mm s acts, 2 <= mm ->
+  forall (D : Type) (digest : N -> D -> option (list N)) mb mm s acts, Forall (action_ok mm) acts ->
     ps_conn s = 0 -> ps_pend s = [] -> ps_out s = None -> ps_dial s = false -> ps_opening s = false ->
     (ps_mgr s = 1 \/ ps_mgr s = 3) -> acts <> [] ->
     let '(s1, _, done) := run_peer D digest mb mm s (map PSend acts ++ [PConnect; POutOpen None]) in
@@ -577,7 +586,7 @@ Print Assumptions C20_dial_failure_drops_parked.
 (* a command whose write fails half-way is queued again whole: what had been written is written
    again on the next substream (delivery to the remote is at-least-once, not exactly-once) *)
 Theorem C20_failed_send_retried_whole :
-  forall (D : Type) (digest : N -> D -> option (list N)) mb mm s c a done part c', 2 <= mm ->
+  forall (D : Type) (digest : N -> D -> option (list N)) mb mm s c a done part c', action_ok mm a ->
     ps_out s = Some c -> ps_pend s = [] -> ps_conn s = 1 ->
     write_msgs mm c (action_msgs mb mm a) = (done, part, c', false) ->
     let '(s1, _, written) := run_peer D digest mb mm s [PSend a; POutOpen None] in
